@@ -1,9 +1,10 @@
 """C11 — the solver query equals the path's constraints; refinement is exact.
 
-Obligations: T-refine, T-pathcopy, Props/C11.vo (theorems over the regenerated rules of
-solve.refine and f-strings of solve.dump, over the model of one sevm.Path, and over the
+Obligations: T-refine, T-pathcopy, T-dumpfs, Props/C11.vo (theorems over the regenerated
+rules of solve.refine and f-strings of solve.dump, over the model of one sevm.Path, over the
 object-level model of several Path objects whose copy modes are regenerated from
-Path.branch / Path.extend_path), lint.
+Path.branch / Path.extend_path, and over the file-system model interpreting the regenerated
+statements of solve.dump / solve_low_level / solve_end_to_end), lint.
 Ties (every run):
   X-refine  real solve.refine on declaration / assert / near-miss lines at many widths
             vs the extracted refine_line; value of the real refined define-fun (z3) on
@@ -29,6 +30,18 @@ Ties (every run):
             Path methods wrapped by a recorder of every constraint handed to a path or to
             the fork that created it: every yielded state must have nothing pending and its
             dumped queries must be equivalent to the handed constraints.
+  X-dumpfs  the file the solver process reads: sequences of real solve_end_to_end /
+            solve_low_level calls on real FunctionContexts (--dump-smt-directory: DIR/<function
+            name> shared by same-named functions of several contracts, path ids restarting;
+            and temporary directories), queries from real Path.to_smt2, with a stub solver
+            command that records name and bytes of the file it is given and answers as planned
+            (sat through an abstraction -> refinement, sat, unsat, unknown), over dump
+            directories pre-populated with queries of other paths, refined queries, garbage,
+            empty and read-only leftovers: the processes started and the bytes each one read
+            vs the specification (the query of the path being solved, as text and - for the
+            witness - by z3 against the path's constraints) and vs the extracted interpreter
+            of the regenerated dump / solve_low_level / solve_end_to_end (Model/DumpFsModel.v,
+            T-dumpfs); the *.smt2 files left behind likewise.
 Scripts also use "hash twins" (distinct simplified conditions with the same z3 ast hash,
 searched at start-up): only structurally equal conditions are duplicates.
 """
@@ -50,9 +63,10 @@ ASSUMPTIONS = [
     "tracking literals |<id>| live in their own name space (decimal z3 ast ids; halmos symbols are never purely numeric)",
     "the worklist of SEVM.run follows the exploration discipline stated as Model/PathHeapModel.sched_step (appends and forks come from the path running on the solver, the most recent waiting fork is activated next): hypothesis `sched_run ... = Some sc` of C11_solver_mirrors_running_path, visible in its statement; the theorems about conditions / queries (C11_paths_do_not_interfere, C11_every_path_query) do not need it",
     "Python object semantics as modelled: dict / set / defaultdict mutation in place, .copy() = new container with the same values, deepcopy = new container with new sets (the copy modes are read off sevm.py by T-pathcopy and cross-checked by object identity on real Path objects)",
+    "the solver process reads the file named on its command line, once, after it is started and before solve_low_level returns; a write replaces (write_text / mode w) or extends (mode a) the content of exactly the named file; calls of solve_end_to_end that share a file name do not overlap in time (paths of one FunctionContext solved concurrently have distinct ids): the file-system model of C11_solver_reads_query_of_the_path_being_solved is sequential",
     "the extracted model and driver are faithful to the Coq definitions (extraction is trusted)",
 ]
-PARTIAL = "paths are built directly on sevm.Path objects with generated z3 conditions (L2 of DESIGN 4.2), plus SEVM.run on small hand-assembled programs (single frame, two calldata words) with the Path methods wrapped by a lineage recorder; no end-to-end `python -m halmos` run on fabricated build artifacts is part of this check; the fuel of the slice worklist loop (slice_fuel) is not proved sufficient (running out is the model's error value, excluded by the `= Some` hypotheses and never observed in the correspondence run)"
+PARTIAL = "paths are built directly on sevm.Path objects with generated z3 conditions (L2 of DESIGN 4.2), plus SEVM.run on small hand-assembled programs (single frame, two calldata words) with the Path methods wrapped by a lineage recorder; the dump / solve protocol is exercised through the real solve_end_to_end / solve_low_level on real FunctionContexts with a stub solver command (its answers are planned, not computed); no end-to-end `python -m halmos` run on fabricated build artifacts is part of this check; concurrent solving of the paths of one function and file permission bits are not modelled; the fuel of the slice worklist loop (slice_fuel) is not proved sufficient (running out is the model's error value, excluded by the `= Some` hypotheses and never observed in the correspondence run)"
 
 WIDTH_POOL = ["256", "264", "512", "8", "1", "64", "1024", "0", "007", "257"]
 REAL_WIDTHS = {"bvmul": [256, 512], "bvudiv": [256], "bvurem": [256, 264, 512], "bvsdiv": [256], "bvsrem": [256], "exp": [256]}
@@ -1357,6 +1371,8 @@ def impl_fs_scenario(sc):
                 got.append([(ld / f"{n}.name").read_text(), bf.read_text() if bf.exists() else None])
                 n += 1
             o["got"] = got
+            # the dumped *.smt2 files left behind by this call
+            o["left"] = [P(w[0]).read_text() if P(w[0]).is_file() else None for w in want]
             # the bytes the solver read against the constraints of the path (z3), for the unrefined query
             o["sem"] = []
             if got and got[0][1] is not None and not j["refined"] and (not want or got[0][1] != want[0][1]):
@@ -1444,6 +1460,10 @@ def describe_bytes(got, sc, obs, k):
         for w in o2["want"]:
             if w[1] == got and k2 != k:
                 return f"the query of call {k2} ({sc['fctxs'][sc['jobs'][k2]['fctx']]['contract']}.{sc['fctxs'][sc['jobs'][k2]['fctx']]['fn']} path {sc['jobs'][k2]['path_id']}, constraints {sc['jobs'][k2]['conds']})"
+    for k2, o2 in enumerate(obs["jobs"]):
+        for w in o2["want"]:
+            if w[1] and got.startswith(w[1]) and len(got) > len(w[1]):
+                return f"the query of call {k2} (constraints {sc['jobs'][k2]['conds']}) followed by {len(got) - len(w[1])} more bytes"
     for name, c in obs["files0"].items():
         if c == got:
             return f"the content {name.split('/')[-2]}/{name.split('/')[-1]} had before the run"
@@ -1468,7 +1488,7 @@ def run(rep, tier):
     # the extracted model does not depend on the proofs: it is built (and compared with the
     # implementation) also when a proof obligation is broken
     exe, log = common.build_driver(PID)
-    rep.obligation("extraction of Model/SmtTextModel.v + Model/PathHeapModel.v entry points + OCaml driver build", exe is not None, "" if exe else log[-800:])
+    rep.obligation("extraction of Model/SmtTextModel.v + Model/PathHeapModel.v + Model/DumpFsModel.v entry points + OCaml driver build", exe is not None, "" if exe else log[-800:])
     if exe is None and b["make_ok"]:
         rep.fail("broken-tie", "extracted model driver does not build: " + log[-400:], case={})
     m = Model(exe) if exe is not None else None
@@ -1885,6 +1905,10 @@ def run(rep, tier):
                          f"{who}: the solver process was handed {'/'.join(g[0].split('/')[-2:])} which holds {describe_bytes(g[1], sc, o, k)} and not the {'refined ' if n else ''}query of the path being solved"
                          f"{' -- against the constraints of the path: ' + sem if sem else ''} (files before: {sorted('/'.join(x.split('/')[-2:]) for x in o['files0'])}) in scenario {sc}",
                          dict(case, call=k, process=n, file=g[0]), sig={"what": "solver-read-other-query", "refined": n > 0, "cache": f["cache"]})
+                elif oj["left"][n] != w[1] and all(w2[0] != w[0] for w2 in oj["want"][n + 1:]):
+                    fail("failing-input",
+                         f"{who}: after the call the dumped file {'/'.join(w[0].split('/')[-2:])} holds {describe_bytes(oj['left'][n], sc, o, k)} and not the {'refined ' if n else ''}query of the path that was solved, in scenario {sc}",
+                         dict(case, call=k, process=n, file=w[0]), sig={"what": "dumped-file-not-the-query", "refined": n > 0})
         if raised or fres is None or i not in fres:
             continue
         mo = fres[i]
@@ -1909,11 +1933,11 @@ def run(rep, tier):
     rep.coverage["undecided_equivalence_checks"] = undecided
     rep.coverage["traces_validated_against_impl"] = len(scripts) if mres is not None else 0
     return rep.finish(
-        checker_cmd="make -C coq Props/C11.vo (coq_makefile, coqc 8.16.1) after regenerating coq/Gen/GenRefine.v from /repo/src/halmos/solve.py",
+        checker_cmd="make -C coq Props/C11.vo (coq_makefile, coqc 8.16.1) after regenerating coq/Gen/GenRefine.v and coq/Gen/GenDumpFs.v from /repo/src/halmos/solve.py and coq/Gen/GenPathCopy.v from /repo/src/halmos/sevm.py",
         trusted_base=common.TRUSTED_BASE_COMMON + ["z3 (python bindings) as the reference parser / evaluator of the dumped SMT-LIB text in the correspondence run"],
         assumptions=ASSUMPTIONS,
         partial=PARTIAL,
-        rule="three case families: (1) refine_line: declaration lines f_evm_<op>_<N> for ops inside / outside the alternations, widths 256/264/512 and others incl. malformed (mismatching sorts, leading zeros, non-digits), other query lines; non-trivial = an f_evm_ declaration; (2) eval: the real refined define-fun applied by z3 to boundary operands (0, 1, 2^(N-1), 2^N-1, ...) and random ones at widths 256/264/512 and small widths; non-trivial = zero divisor or a negative (msb set) operand; (3) script: random lives of a sevm.Path (append / branch+activate with the parent continuing / slice / extend_path into a Path with a fresh solver) over generated z3 conditions with f_evm_ abstractions, arrays, duplicates and trivially true conditions; non-trivial = a condition was deduplicated or dropped as true, the solver holds a strict subset of conditions (sliced parent), refinement changed the query, or a branch happened; (4) hscript: programs over several Path objects (handle = creation index; append / branch / activate / slice / extend on any live object; every other program generated along the exploration discipline: one running path per solver, LIFO activation, finished states sliced and extended once or twice) plus a directed corpus (two transactions from one unsliced / sliced state, both sides of a fork running on, a frontier state extended three times, out-of-order activation); non-trivial = several objects created from one state, an object created from a state after a sibling (or the state) was appended to, or a fork; (5) engine_program: 1-4 statements over two symbolic calldata words (JUMPI to STOP / REVERT / INVALID, vm.assertTrue / assertFalse / assertEq, vm.assume) assembled to bytecode and run by the real SEVM.run; non-trivial = a failing-assertion fork was yielded; scripts of (3) and (4) also draw hash twins (pairs of distinct simplified conditions with equal z3 ast hash found by a start-up search over `a op k`, k < 3000); distinct by hash of the case",
+        rule="case families: (1) refine_line: declaration lines f_evm_<op>_<N> for ops inside / outside the alternations, widths 256/264/512 and others incl. malformed (mismatching sorts, leading zeros, non-digits), other query lines; non-trivial = an f_evm_ declaration; (2) eval: the real refined define-fun applied by z3 to boundary operands (0, 1, 2^(N-1), 2^N-1, ...) and random ones at widths 256/264/512 and small widths; non-trivial = zero divisor or a negative (msb set) operand; (3) script: random lives of a sevm.Path (append / branch+activate with the parent continuing / slice / extend_path into a Path with a fresh solver) over generated z3 conditions with f_evm_ abstractions, arrays, duplicates and trivially true conditions; non-trivial = a condition was deduplicated or dropped as true, the solver holds a strict subset of conditions (sliced parent), refinement changed the query, or a branch happened; (4) hscript: programs over several Path objects (handle = creation index; append / branch / activate / slice / extend on any live object; every other program generated along the exploration discipline: one running path per solver, LIFO activation, finished states sliced and extended once or twice) plus a directed corpus (two transactions from one unsliced / sliced state, both sides of a fork running on, a frontier state extended three times, out-of-order activation); non-trivial = several objects created from one state, an object created from a state after a sibling (or the state) was appended to, or a fork; (5) engine_program: 1-4 statements over two symbolic calldata words (JUMPI to STOP / REVERT / INVALID, vm.assertTrue / assertFalse / assertEq, vm.assume) assembled to bytecode and run by the real SEVM.run; non-trivial = a failing-assertion fork was yielded; (6) fs_scenario: 1-3 FunctionContexts (contracts A/B/C, functions check_x / setUp / _compute_frontier, --dump-smt-directory or temporary directory, cache_solver or not), 1-5 calls of solve_end_to_end (or solve_low_level, sometimes on an already refined context, sometimes answered by a known unsat core) with path ids 0-2 and 1-3 constraints each (comparisons of two symbols with constants, some through f_evm_bvudiv_256 so that refinement changes the query), planned solver answers (sat through the abstraction / sat / unsat / unknown), 0-3 files placed beforehand under the names of the calls (the dumped query of another call or of other constraints, its refinement, garbage, empty; .smt2 / .refined.smt2 / .out; some read-only) plus a directed corpus (same-named test of two contracts in both orders, plain and cached; probes of two invariant depths; a second run on a used directory with refined leftovers; two refinements under one name; one path solved three times in a temporary directory); non-trivial = the name of a query file is already taken (by a leftover or an earlier call) when it is solved; scripts of (3) and (4) also draw hash twins (pairs of distinct simplified conditions with equal z3 ast hash found by a start-up search over `a op k`, k < 3000); distinct by hash of the case",
     )
 
 
